@@ -41,6 +41,7 @@
 #include <tins/dot3.h>
 #include <tins/packet_sender.h>
 #include <tins/llc.h>
+#include <tins/snap.h>
 #include <tins/exceptions.h>
 #include <tins/memory_helpers.h>
 
@@ -71,7 +72,14 @@ Dot3::Dot3(const uint8_t* buffer, uint32_t total_sz) {
     InputMemoryStream stream(buffer, total_sz);
     stream.read(header_);
     if (stream) {
-        inner_pdu(new Tins::LLC(stream.pointer(), stream.size()));
+        // An LLC header of AA AA 03 announces SNAP, which has a class of its own
+        const uint8_t* ptr = stream.pointer();
+        if (stream.size() >= 8 && ptr[0] == 0xaa && ptr[1] == 0xaa && ptr[2] == 0x03) {
+            inner_pdu(new Tins::SNAP(ptr, stream.size()));
+        }
+        else {
+            inner_pdu(new Tins::LLC(ptr, stream.size()));
+        }
     }
 }
 
